@@ -48,6 +48,14 @@ func GenesisForProfile(profile string, hs uint64) GenesisCfg {
 		pool.TotalReward = sdk.NewInt64Coin(Denom, minted)
 		cfg.Pool = &pool
 	}
+	if profile == "lifecycle" && hs%2 == 1 {
+		// half of the lifecycle histories run with block rewards on: providers that owe collateral
+		// (debts from renewal top-ups they could not fund) then have rewards to claim
+		p := DefaultNodeParams(Denom)
+		p.BlockReward = sdk.NewInt64Coin(Denom, []int64{40, 700, 9000}[NewRng(hs^0xa11).Intn(3)])
+		p.Baseline = sdk.NewInt64Coin(Denom, 0)
+		cfg.NodeParams = &p
+	}
 	if profile == "faults" || profile == "genesis" {
 		p := DefaultNodeParams(Denom)
 		p.FishmenInfo = MakeAccount("a1").Addr.String() + "," + MakeAccount("a2").Addr.String()
@@ -60,8 +68,8 @@ func GenesisForProfile(profile string, hs uint64) GenesisCfg {
 // {"profile":..,"hist":..,"ops":[raw ops]}) on the current tree and prints the fresh trace.
 func Replay(path string, out io.Writer) int { return ReplayOpt(path, out, false) }
 
-// ReplayOpt replays every history of a trace; with restarts the package-level state of the
-// application is reset after every operation (Mode K emulation of crash + restart from the DB).
+// ReplayOpt replays every history of a trace; with restarts the application is committed, dropped and
+// re-opened from its database after every operation and the package-level state is reset (crash + restart).
 func ReplayOpt(path string, out io.Writer, restarts bool) int {
 	f, err := os.Open(path)
 	if err != nil {
@@ -121,9 +129,12 @@ func ReplayOpt(path string, out io.Writer, restarts bool) int {
 		w := NewWorld(c)
 		enc.Encode(M{"genesis": M{"env": w.EnvJSON(), "state": w.Dump(w.C.Ctx())}, "hist": h.id, "profile": h.profile})
 		for i := range h.ops {
+			// (the twin executes `sim` ops too, so that both runs intern strings in the same order; the
+			// restart that follows drops whatever the non-consensus call left in process memory, which
+			// makes the twin a replica that never served it)
 			res, o := w.Exec(&h.ops[i])
-			if restarts {
-				resetGlobals()
+			if restarts && res.Res != "panic" && res.Res != "hang" {
+				w.Restart()
 			}
 			enc.Encode(M{"i": i, "op": o, "res": res, "state": w.Dump(w.C.Ctx()), "raw": h.ops[i]})
 			if res.Res == "hang" {
